@@ -285,6 +285,8 @@ def gen_graph(rng, knobs=None):
         units.append(u)
     if knobs.get("program", rng.random() < 0.6):
         units.append(gen_program(rng, units, forms, knobs))
+    if rng.random() < knobs.get("p_shared", 0.0):
+        share_statement(rng, units)
     if rng.random() < knobs.get("p_blockdata", 0.0):
         units.append(gen_blockdata(rng, units))
     if rng.random() < knobs.get("p_special", 0.0):
@@ -449,6 +451,33 @@ def nested_nodes(u):
         if d.get("body"):
             walk(d["body"], [d["name"]], ["genblock"])
     return out
+
+
+def share_statement(rng, units):
+    """two (or three) scopes share a non-ONLY statement text for one module, their companion renames differ:
+    each of them gets `use X` plus `use X, only: <fresh> => <a name of X>` with a different name of X"""
+    mods = [u for u in units if u["unit"] == "module"]
+    cands = [(i, m) for i, m in enumerate(mods[:-1]) if len(guess_exports(units, m["name"])) >= 2]
+    if not cands:
+        return
+    i, x = rng.choice(cands)
+    users = [u for u in units[units.index(x) + 1:] if not any(y["target"].lower() == x["name"].lower() for y in all_uses(u))]
+    if len(users) < 2:
+        return
+    users = rng.sample(users, min(len(users), rng.choice([2, 2, 3])))
+    names = sorted(guess_exports(units, x["name"]))
+    rng.shuffle(names)
+    pre = rng.choice(["", "::", "non_intrinsic"])
+    for k, u in enumerate(users):
+        n = names[k % len(names)]
+        shared = {"target": x["name"], "only": None, "renames": [], "prefix": pre}
+        comp = {"target": x["name"], "only": [[f"s{u['name'][-1]}{k}", n]], "renames": [], "prefix": ""}
+        if rng.random() < 0.3:
+            comp = {"target": x["name"], "only": None, "renames": comp["only"], "prefix": ""}
+        scopes = [u] + [nd for _, _, nd in nested_nodes(u) if nd["kind"] == "routine"]
+        sc = rng.choice(scopes)
+        pair = [shared, comp] if rng.random() < 0.5 else [comp, shared]
+        sc["uses"] += pair
 
 
 def gen_blockdata(rng, units):
